@@ -71,7 +71,7 @@ func H_C14_JSONFormatter() {
 		out, err = (&JSONFormatter{}).Process(context.Background(), e)
 	} else {
 		ff := &JSONFormatterFilter{}
-		pk = symLen(0, 3)
+		pk = symLen(0, 4)
 		if pk > 0 {
 			ff.Predicate = func(x interface{}) (bool, error) {
 				switch pk {
@@ -79,6 +79,9 @@ func H_C14_JSONFormatter() {
 					return true, nil
 				case 2:
 					return false, nil
+				case 4:
+					// an error is an error whatever the boolean says
+					return true, predErr
 				}
 				return false, predErr
 			}
@@ -105,14 +108,14 @@ func H_C14_JSONFormatter() {
 		verifReach("C14.forwarded")
 	case 2:
 		verifAssert(err == nil && out == nil, "C14.predicate-false-drops")
-	case 3:
+	case 3, 4:
 		verifAssert(err == predErr && out == nil, "C14.predicate-error-is-error")
 	}
 }
 
 func H_C14_Filter() {
 	e, _, ks, vs, n := symEvent()
-	pk := symLen(1, 3)
+	pk := symLen(1, 4)
 	predErr := &vErr{"pred"}
 	var shown *Event
 	f := &Filter{Predicate: func(x *Event) (bool, error) {
@@ -122,6 +125,8 @@ func H_C14_Filter() {
 			return true, nil
 		case 2:
 			return false, nil
+		case 4:
+			return true, predErr
 		}
 		return false, predErr
 	}}
@@ -132,7 +137,7 @@ func H_C14_Filter() {
 		verifAssert(err == nil && out == e, "C14.filter.true-forwards")
 	case 2:
 		verifAssert(err == nil && out == nil, "C14.filter.false-drops")
-	case 3:
+	case 3, 4:
 		verifAssert(err == predErr && out == nil, "C14.filter.error")
 	}
 	checkFormatted(e, ks, vs, n, false, "", "C14.filter")
